@@ -8,6 +8,8 @@ use vstd::prelude::*;
 //@include ../../shims/prelude.rs
 //@include ../../shims/bytes.rs
 //@include ../../shims/crypto.rs
+//@include ../../shims/net.rs
+//@include ../../shims/ss.rs
 }
 use shim::*;
 pub mod specs {
@@ -15,13 +17,19 @@ use vstd::prelude::*;
 use super::shim::*;
 //@include ../common_nonce.rs
 //@include ../common_chunk.rs
+//@include ../common_addr.rs
 }
 use specs::*;
+use anyhow::Result;
+type DatagramPacket = (BytesMut, Address);
+global size_of usize == 8;   // ASSUMPTION: 64-bit target
 
 pub assume_specification[ u8::overflowing_add ](a: u8, b: u8) -> (r: (u8, bool))
     ensures r.0 as int == (a + b) % 256, r.1 == (a + b >= 256);
-broadcast use axiom_seal_len, axiom_open_unique, lemma_len0_empty;
+broadcast use axiom_seal_len, axiom_open_unique, lemma_len0_empty, axiom_v4_len, axiom_v6_len, axiom_string_utf8, axiom_blake3_kdf_len, axiom_blake3_hash_len, axiom_hkdf_len;
 
+//@include ../parts/addr.rs
 //@include ../parts/sschunk.rs
+//@include ../parts/sstcp.rs
 } // verus!
 fn main() {}
